@@ -191,6 +191,9 @@ func (h *recHook) OnSessionEstablished(cl *mqtt.Client, pk packets.Packet) {
 	defer h.mu.Unlock()
 	h.superseded(cl)
 	to := takenOver(cl)
+	if pk.Connect.Clean { // marker 15: the session was requested with Clean Start / Clean Session 1
+		h.events = append(h.events, sx.L{sx.N(15), sx.S(cl.ID)})
+	}
 	h.events = append(h.events, sx.L{sx.N(0), sxClient(cl), sx.Bool(to)})
 	n := 1
 	if to {
